@@ -64,6 +64,8 @@ func drawWriteCase(t *rapid.T) *writeCase {
 	if k := sim.Intn(t, 16, "deep"); k >= 14 {
 		c.Deep = true
 		c.Value = gens.Deep(t, 8+sim.Intn(t, 60, "depth"))
+	} else if k == 12 {
+		c.Value = gens.SizedValue(t)
 	} else if k == 13 {
 		c.Value = []any{gens.Wide(t), gens.Tree(t, 2)}
 	} else {
